@@ -20,6 +20,7 @@ import compat  # noqa: F401
 import snaxrun
 from framework import Prop, canon_json
 
+TAGS = 2000   # tags of loop m of a multi-loop module are in [TAGS*m, TAGS*(m+1))
 T1 = "memref<1xi8, strided<[1], offset: ?>>"
 T = "memref<1xi8>"
 BIG = "memref<64xi8>"
@@ -153,6 +154,29 @@ def render(case):
     return "\n".join(L) + "\nscf.for %i = %lb to %ub step %step {\n" + "\n".join(B) + "\n}\n" + tail
 
 
+def shifted(case, m):
+    """loop number m of a multi-loop module: array / buffer / external ids and tags moved to a range of its own"""
+    def v(o):
+        return [o[0], o[1] + (0 if o[0] == "t" else 100 * m)]
+    body = [[t[0], t[1] + TAGS * m, t[2], [v(o) for o in t[3]], [v(o) for o in t[4]]] if t[0] == "op" else list(t)
+            for t in case["body"]]
+    return dict(case, body=body, tiles=[[t[0] + 100 * m] + list(t[1:]) for t in case["tiles"]])
+
+
+_LOCAL = __import__("re").compile(r"%((?:lb|ub|step)[pq]?|i|j|k|u|eub|[tcoz]\d+|e\d+_\d+)\b")
+
+
+def render_any(case):
+    """MLIR of a case; kind 'multi': several generated loops one after the other in ONE module"""
+    if case.get("kind") != "multi":
+        return render(case)
+    return "".join(_LOCAL.sub(lambda mo, m=m: f"%{mo.group(1)}_L{m}", render(sub)) for m, sub in enumerate(subcases(case)))
+
+
+def subcases(case):
+    return [shifted(c, m) for m, c in enumerate(case["loops"])] if case.get("kind") == "multi" else [case]
+
+
 # ------------------------------------------------------------------------------------------------ reading IR
 class Unrecognised(Exception):
     pass
@@ -170,20 +194,31 @@ class Walker:
     """Evaluates index / memref values of the (un)rolled IR. symbolic=True: the loop variable is ('iv', c) meaning
     i - c and the loop's upper bound is ('ub', c); symbolic=False: plain integers (the oracle's machine)."""
 
-    def __init__(self, module, symbolic, case):
+    def __init__(self, module, symbolic, case, which=None):
+        """which: None = the module holds one generated loop; m = read loop number m of a module with several loops
+        (its induction variable is named i_L<m>, its ops carry tags in [TAGS*m, TAGS*(m+1)))"""
         from xdsl.dialects import scf
         self.symbolic = symbolic
         self.case = case
+        self.which = which
         self.env = {}
         self.seen_alloc = {}
         self.epochs = [[]]
         self.neg = []
+        self.owner = None      # loop of the last top-level event (a top-level barrier closes a slot of that loop)
+        self.n_before = None   # number of closed top-level epochs when the loop is reached
         self.block = module.body.block
-        fors = [o for o in self.block.ops if isinstance(o, scf.ForOp) and not _hint(o.body.block.args[0]).startswith("k")]
-        if len(fors) != 1:
-            raise Unrecognised(f"{len(fors)} top-level loops")
-        self.for_op = fors[0]
+        self.for_op = None
         self.loop = None   # symbolic: (lb value, [epochs of the body])
+        if symbolic:
+            want = "i" if which is None else f"i_L{which}"
+            fors = [o for o in self.block.ops if isinstance(o, scf.ForOp) and _hint(o.body.block.args[0]) == want]
+            if len(fors) != 1:
+                raise Unrecognised(f"{len(fors)} top-level loops")
+            self.for_op = fors[0]
+
+    def mine(self, tag):
+        return self.which is None or tag // TAGS == self.which
 
     # index arithmetic over (base, offset): base in {None, 'iv', 'ub'}
     def _sub(self, a, b):
@@ -282,8 +317,16 @@ class Walker:
                 else:
                     ins, outs = [env[v] for v in op.inputs], [env[v] for v in op.outputs]
                     kind = "op"
+                if self.symbolic and not self.mine(_tag(op)):
+                    if top:
+                        self.owner = False
+                    continue
+                if top:
+                    self.owner = True
                 self.epochs[-1].append((_tag(op), kind, ins, outs))
             elif isinstance(op, snax.ClusterSyncOp):
+                if self.symbolic and top and self.owner is False:
+                    continue   # closes a slot of another loop of the module
                 self.epochs.append([])
             elif isinstance(op, scf.ForOp):
                 if op is not self.for_op and self.symbolic:
@@ -291,10 +334,12 @@ class Walker:
                 iv = op.body.block.args[0]
                 if self.symbolic:
                     outer = self.epochs
+                    self.n_before = len(outer) - 1
                     self.epochs = [[]]
                     env[iv] = ("iv", 0)
                     self.walk(op.body.block)
                     self.loop = (env[op.lb], env[op.step], self.epochs)
+                    self.owner = None
                     self.epochs = outer
                 else:
                     lb, ub, step = env[op.lb], env[op.ub], env[op.step]
@@ -325,8 +370,8 @@ def _expr(x, ub_val):
 class _SymWalker(Walker):
     """symbolic walk; the SSA value used as the loop's upper bound evaluates to ('ub', 0)"""
 
-    def __init__(self, mod, case):
-        super().__init__(mod, True, case)
+    def __init__(self, mod, case, which=None):
+        super().__init__(mod, True, case, which)
         ub = self.for_op.ub
 
         class _Env(dict):
@@ -338,7 +383,7 @@ class _SymWalker(Walker):
         self.run()
         if self.loop is None:
             raise Unrecognised("no loop")
-        return {"top": self.epochs, "loop": self.loop}
+        return {"top": self.epochs, "loop": self.loop, "n_before": self.n_before}
 
 
 def _opnd_json(v):
@@ -359,23 +404,13 @@ def _slot_json(events):
     return [[tag, [_opnd_json(v) for v in ins], [_opnd_json(v) for v in outs]] for tag, _k, ins, outs in events]
 
 
-def structure_of(case, mod):
+def structure_of(case, mod, which=None):
     """canonical JSON of the real IR's slot structure; index expressions are [base, offset] with base in
-    {None (constant), 'iv', 'ub'}: value = base + offset"""
-    w = _SymWalker(mod, case)
+    {None (constant), 'iv', 'ub'}: value = base + offset. which = m: loop number m of a module with several loops."""
+    w = _SymWalker(mod, case, which)
     r = w.result()
     lbv, stepv, body = r["loop"]
-    # top-level epochs: events before the loop are in epochs up to the point where the loop was met. The walker
-    # appends loop-external events to self.epochs in program order; the loop itself adds no top-level events, so we
-    # re-walk to find how many top-level barriers precede the loop.
-    from xdsl.dialects import scf
-    from snaxc.dialects import snax
-    n_before = 0
-    for op in mod.body.block.ops:
-        if isinstance(op, scf.ForOp) and op is w.for_op:
-            break
-        if isinstance(op, snax.ClusterSyncOp):
-            n_before += 1
+    n_before = r["n_before"]   # closed top-level epochs (of this loop) in front of the loop = prologue slots
     top = r["top"]
     pro, epi = top[:n_before], top[n_before:]
     if epi[-1]:
@@ -614,6 +649,37 @@ def dyn_cases(rng, per_combo):
             yield dict(c, kind="dynbounds")
 
 
+def multi_case(rng):
+    """several loops in ONE module (the pass objects and their pattern objects are created once per module and applied to one
+    loop after the other): pipelinable loops, sometimes with a loop the passes decline in front or in between"""
+    loops = []
+    for _ in range(rng.choice([2, 2, 3])):
+        S = rng.choice([2, 3, 3, 4])
+        if rng.random() < 0.2:
+            c = chain_case(rng, S, rng.choice([0, 1, 5]), lb=rng.choice([1, 0]), noise=False)   # mostly declined
+            c["ub"][0] += c["lb"][0]
+        else:
+            # mostly long enough for the steady-state loop to run at least twice
+            c = chain_case(rng, S, rng.randrange(S + 1, 9) if rng.random() < 0.85 else rng.randrange(S - 1, 8), noise=rng.random() < 0.3)
+        loops.append(c)
+    return {"kind": "multi", "loops": loops}
+
+
+def skip_case(rng, S, N):
+    """an intermediate buffer produced in stage j and consumed ONLY in stage j+2 (stage j+1 does not touch it): two copies do
+    not suffice for that distance; refusing the loop (NotImplementedError) is fine"""
+    c = chain_case(rng, S, N, noise=False)
+    ops = [t for t in c["body"] if t[0] == "op"]
+    j = rng.randrange(0, S - 2)
+    b = ops[j][4][0]
+    assert b[0] == "b" and ops[j + 1][3][0] == b
+    ops[j + 1][3][0] = ["t", 0]
+    if ops[j + 2][2] == "copy":
+        ops[j + 2][2] = "op"
+    ops[j + 2][3].append(list(b))
+    return dict(c, kind="skipstage")
+
+
 def mutate_shape(rng, case):
     """irregular shapes and buffer assignments (mostly declined or rejected by the passes)"""
     c = dict(case, body=[list(t) if t[0] != "op" else [t[0], t[1], t[2], [list(v) for v in t[3]], [list(v) for v in t[4]]]
@@ -701,7 +767,7 @@ class C15(Prop):
         "index ops are pure functions of the loop index (here: subviews A[i + off] and loop-invariant subviews A[off])",
         "the input loop itself is race-free between barriers (otherwise 'the sequential loop' has no single meaning)",
     ]
-    rule = ("loops with 1..5 stages of copies/kernels, trip counts 0..8, lb/step/ub constant or run-time values (opaque or computed, every "
+    rule = ("modules with 1..3 loops; loops with 1..5 stages of copies/kernels, trip counts 0..8, lb/step/ub constant or run-time values (opaque or computed, every "
             "combination, empty ranges), the lb SSA value shared with tile index computations and with another loop before/after, 2..4 tiles, shared read-only / "
             "write-only / external buffers, multi-op stages, plus irregular shapes; non-trivial = the real passes pipelined the loop")
 
@@ -711,14 +777,25 @@ class C15(Prop):
             for N in range(0, 9):
                 yield chain_case(random.Random(S * 100 + N), S, N, noise=False)
         yield from dyn_cases(random.Random(rng.getrandbits(48)), 4 if tier == "quick" else 40)
+        r0 = random.Random(rng.getrandbits(48))
+        for _ in range(5 if tier == "quick" else 60):
+            yield multi_case(r0)
+        for _ in range(4 if tier == "quick" else 40):
+            S3 = r0.choice([3, 3, 4, 5])
+            yield skip_case(r0, S3, r0.randrange(S3 + 1, 9))
         n = 260 if tier == "quick" else 6000
         for _ in range(n):
             r = random.Random(rng.getrandbits(48))
             S = r.choice([2, 2, 3, 3, 3, 4, 4, 1, 5])
             N = r.randrange(0, 9)
             u = r.random()
-            if u < 0.55:
+            if u < 0.48:
                 yield chain_case(r, S, N)
+            elif u < 0.52:
+                yield multi_case(r)
+            elif u < 0.55:
+                S3 = r.choice([3, 3, 4, 5])
+                yield skip_case(r, S3, max(N, S3 + 1) if r.random() < 0.8 else N)
             elif u < 0.63:
                 yield view_case(r, max(S, 2), max(N, 2) if r.random() < 0.8 else N)
             elif u < 0.70:
@@ -735,17 +812,22 @@ class C15(Prop):
 
     # -- real code ------------------------------------------------------------------------------
     def impl(self, case):
-        src = render(case)
+        src = render_any(case)
         try:
             snaxrun.parse(src).verify()
         except Exception as e:
             return {"invalid_input": type(e).__name__}
-        from xdsl.dialects import scf
         out = run_real(src)
+        if case.get("kind") == "multi":
+            return {"multi": [self.impl_one(sub, out, m) for m, sub in enumerate(subcases(case))]}
+        return self.impl_one(case, out, None)
+
+    def impl_one(self, case, out, which):
+        from xdsl.dialects import scf
         if not any(t[0] == "op" for t in case["body"]) and not any(isinstance(o, scf.ForOp) for o in out.walk()):
             return {"declined": True}   # a loop without effects is erased as dead code
         try:
-            st = structure_of(case, out)
+            st = structure_of(case, out, which)
         except Unrecognised as e:
             return {"unrecognised": str(e)}
         if st == original_structure(case):
@@ -754,20 +836,33 @@ class C15(Prop):
 
     # -- model ----------------------------------------------------------------------------------
     def requests(self, case):
+        return [self.request_one(sub) for sub in subcases(case)]
+
+    def request_one(self, case):
         def v(name):
             return case[name][0] if case[name][1] else None
         body = []
         for t in case["body"]:
             body.append(["op", t[1], t[3], t[4]] if t[0] == "op" else [t[0]])
-        return [{"fn": "c15.run", "args": {"lb": v("lb"), "ub": v("ub"), "step": v("step"), "nested": bool(case.get("nested")),
-                                           "body": body, "tiles": [list(tile_entry(case, j)) for j in range(len(case["tiles"]))]}}]
+        return {"fn": "c15.run", "args": {"lb": v("lb"), "ub": v("ub"), "step": v("step"), "nested": bool(case.get("nested")),
+                                          "body": body, "tiles": [list(tile_entry(case, j)) for j in range(len(case["tiles"]))]}}
 
     def model(self, case, answers):
         try:
-            snaxrun.parse(render(case)).verify()
+            snaxrun.parse(render_any(case)).verify()
         except Exception as e:
             return {"invalid_input": type(e).__name__}
-        a = answers[0]
+        if case.get("kind") == "multi":
+            # the pattern objects of the passes are applied to one loop after the other: each loop is transformed as if
+            # it were alone in the module; an exception for one loop is an exception of the run
+            outs = [self.model_one(sub, a) for sub, a in zip(subcases(case), answers)]
+            for o in outs:
+                if "raised" in o or "model_error" in o:
+                    return o
+            return {"multi": outs}
+        return self.model_one(case, answers[0])
+
+    def model_one(self, case, a):
         if "err" in a:
             return {"model_error": a["err"]}
         r = a["ok"]
@@ -819,9 +914,10 @@ class C15(Prop):
     def oracle(self, case, impl_out):
         if "invalid_input" in impl_out or "raised" in impl_out:
             return []  # the passes refuse the loop: nothing was transformed
-        if not any(t[0] == "op" for t in case["body"]):
+        subs = subcases(case)
+        if not any(t[0] == "op" for sub in subs for t in sub["body"]):
             return []
-        src = render(case)
+        src = render_any(case)
         try:
             e_in, neg_in = machine_epochs(snaxrun.parse(src), case)
         except Unrecognised:
@@ -864,7 +960,8 @@ class C15(Prop):
                         problems.append(f"final contents of {loc} differ from the sequential loop ({first} core first)")
                         break
         if problems:
-            fid = "DC15b" if has_trailing(case) else "DC15c" if tiles_misaligned(case) else None
+            fid = ("DC15b" if any(has_trailing(c) for c in subs) else
+                   "DC15c" if any(tiles_misaligned(c) for c in subs) else None)
             return [{"what": "; ".join(problems[:3]), "finding": fid}]
         if dup_diff is not None:
             return [{"what": f"duplicated buffer {dup_diff}: the original allocation ends with the data of the last even iteration, "
@@ -872,9 +969,30 @@ class C15(Prop):
         return []
 
     def nontrivial(self, case, impl_out):
+        if isinstance(impl_out, dict) and "multi" in impl_out:
+            return any("pipelined" in o for o in impl_out["multi"])
         return isinstance(impl_out, dict) and "pipelined" in impl_out
 
+    def stats_key(self, case, impl_out):
+        k = case.get("kind", "case")
+        if isinstance(impl_out, dict) and "raised" in impl_out:
+            return f"{k}:raised:{impl_out['raised']}"
+        if isinstance(impl_out, dict) and "multi" in impl_out:
+            return f"{k}:{len(impl_out['multi'])} loops:{sum('pipelined' in o for o in impl_out['multi'])} pipelined"
+        return k
+
     def shrink(self, case):
+        if case.get("kind") == "multi":
+            loops = case["loops"]
+            if len(loops) == 1:
+                yield loops[0]
+            for i in range(len(loops)):
+                if len(loops) > 1:
+                    yield dict(case, loops=loops[:i] + loops[i + 1:])
+            for i, c in enumerate(loops):
+                for sm in itertools.islice(self.shrink(c), 40):
+                    yield dict(case, loops=loops[:i] + [sm] + loops[i + 1:])
+            return
         # fewer iterations, fewer operands, fewer tokens
         v = case["ub"][0]
         if v > 0:
